@@ -69,29 +69,7 @@ def check(run):
     run.check(bool(d) and all(any(q.render(fr, at) in ('(m_dst == nullptr)',) and not p or q.render(fr, at) == 'm_dst' and p or q.render(fr, at) == '(m_dst != nullptr)' and p for at, p in q.guards_at(fr, c)) for c in d),
               'R15', 'forwarder-null-check', fr.norm, fr.loc(), 'sink_forwarder forwards without testing that it is still attached', 'forwards only while attached')
 
-    run.clause('R15 forwarder protection: close/destructor detach the forwarder before dropping it; re-open creates a fresh one; move re-points it (shared with C11)')
-    for cls in (T, U):
-        for name, sig in (('close', '(boost::system::error_code &)'), ('~socket', None)):
-            f = fx.fn(cls + '::' + name, sig)[0]
-            run.touch(f)
-            own_close = fx.fn1(cls + '::close', '(boost::system::error_code &)')
-            if name.startswith('~') and [c for c in f.calls() if c.get('usr') == own_close.usr]:
-                run.ok('R15', 'forwarder-detached', f.norm, f.loc(), 'destructor delegates to close(ec)')
-                continue
-            drops = [c for c in f.calls() if (c.get('callee') or '').split('::')[-1] == 'reset' and q.render(f, c.get('obj')) == 'm_forwarder' and not c.get('arrow')]
-            drops = [c for c in f.calls() if (c.get('callee') or '').endswith('::reset') and q.render(f, c.get('obj')) == 'm_forwarder' and 'shared_ptr' in (c.get('callee') or '')]
-            det = [c for c in f.calls() if (c.get('callee') or '').endswith('sink_forwarder::reset') and (not c.get('args') or q.strip_casts(c['args'][0])['k'] in ('nullptr', 'defarg') or q.render(f, c['args'][0]) == 'nullptr')]
-            ok = bool(drops) and all(any(q.precedes(f, d_, c) for d_ in det) for c in drops)
-            run.check(ok, 'R15', 'forwarder-detached', '%s%s' % (f.norm, '' if name.startswith('~') else '(ec)'), f.loc(),
-                      'the shared forwarder is released without first being detached (m_forwarder->reset()): packets in flight still hold it and would call into this socket', 'm_forwarder->reset() precedes m_forwarder.reset()')
-            ff = handlers.FieldResetFlow(fx, B + '::m_forwarder', {cls, B} | ({A} if cls == T else set()))
-            run.check(ff.exit_state(f) == handlers.EMPTY, 'R15', 'forwarder-released', '%s%s' % (f.norm, '' if name.startswith('~') else '(ec)'), f.loc(),
-                      'm_forwarder is kept across close: re-opening re-arms the object that packets addressed to the previous incarnation still point at', 'm_forwarder reset on every path')
-        op = [x for x in fx.fn(cls + '::open') if 'error_code' in x.sig][0]
-        fresh = [a for a in q.field_accesses(op, {B + '::m_forwarder'}) if a.kind == 'assign']
-        rearm = [c for c in op.calls() if (c.get('callee') or '').endswith('sink_forwarder::reset')]
-        run.check(bool(fresh) and all('make_shared' in q.render(op, a.site) for a in fresh) and not rearm, 'R15', 'forwarder-fresh-on-open', op.norm, op.loc(),
-                  'open() re-arms an existing forwarder instead of creating a fresh one', 'fresh make_shared<sink_forwarder>(this)')
+    forwarder_rules(run, (T, U))
 
     run.clause('R15 member-timer completions: the class cancels the timer on destruction and the completion returns on abort before touching members (or the class is tabled simulation-lifetime)')
     bound = handlers.bound_member_functions(fx)
@@ -222,6 +200,34 @@ def check(run):
     run.floor('R15', 10)
     run.floor('R5', 10)
     run.floor('R7', 40)
+
+
+def forwarder_rules(run, classes):
+    fx = run.fx
+    run.clause('R15 forwarder protection: close/destructor detach the forwarder before dropping it; re-open creates a fresh one; move re-points it (shared with C11)')
+    for cls in classes:
+        for name, sig in (('close', '(boost::system::error_code &)'), ('~socket', None)):
+            f = fx.fn(cls + '::' + name, sig)[0]
+            run.touch(f)
+            own_close = fx.fn1(cls + '::close', '(boost::system::error_code &)')
+            if name.startswith('~') and [c for c in f.calls() if c.get('usr') == own_close.usr]:
+                run.ok('R15', 'forwarder-detached', f.norm, f.loc(), 'destructor delegates to close(ec)')
+                continue
+            drops = [c for c in f.calls() if (c.get('callee') or '').split('::')[-1] == 'reset' and q.render(f, c.get('obj')) == 'm_forwarder' and not c.get('arrow')]
+            drops = [c for c in f.calls() if (c.get('callee') or '').endswith('::reset') and q.render(f, c.get('obj')) == 'm_forwarder' and 'shared_ptr' in (c.get('callee') or '')]
+            det = [c for c in f.calls() if (c.get('callee') or '').endswith('sink_forwarder::reset') and (not c.get('args') or q.strip_casts(c['args'][0])['k'] in ('nullptr', 'defarg') or q.render(f, c['args'][0]) == 'nullptr')]
+            ok = bool(drops) and all(any(q.precedes(f, d_, c) for d_ in det) for c in drops)
+            run.check(ok, 'R15', 'forwarder-detached', '%s%s' % (f.norm, '' if name.startswith('~') else '(ec)'), f.loc(),
+                      'the shared forwarder is released without first being detached (m_forwarder->reset()): packets in flight still hold it and would call into this socket', 'm_forwarder->reset() precedes m_forwarder.reset()')
+            ff = handlers.FieldResetFlow(fx, B + '::m_forwarder', {cls, B} | ({A} if cls == T else set()))
+            run.check(ff.exit_state(f) == handlers.EMPTY, 'R15', 'forwarder-released', '%s%s' % (f.norm, '' if name.startswith('~') else '(ec)'), f.loc(),
+                      'm_forwarder is kept across close: re-opening re-arms the object that packets addressed to the previous incarnation still point at', 'm_forwarder reset on every path')
+        op = [x for x in fx.fn(cls + '::open') if 'error_code' in x.sig][0]
+        fresh = [a for a in q.field_accesses(op, {B + '::m_forwarder'}) if a.kind == 'assign']
+        rearm = [c for c in op.calls() if (c.get('callee') or '').endswith('sink_forwarder::reset')]
+        run.check(bool(fresh) and all('make_shared' in q.render(op, a.site) for a in fresh) and not rearm, 'R15', 'forwarder-fresh-on-open', op.norm, op.loc(),
+                  'open() re-arms an existing forwarder instead of creating a fresh one', 'fresh make_shared<sink_forwarder>(this)')
+
 
 
 def remove_timer_rule(run, rule='R4'):
